@@ -213,7 +213,8 @@ def stats_inputs(lines: List[Dict[str, Any]]) -> List[Dict[str, Any]]:
                            "planned": len(r.get("obdest", [])) if r["act"] == "DispatchPoolingTrip" else 0})
             out.append({
                 "veh": vs, "req": [{"id": i, "assigned": bool(req[i].get("disp"))} for i in sorted(req)], "fleets": fleets,
-                "moves": [{"fleets": _fleets_of_report(r), "m": tracer.q(float(r.get("distance_km", 0.0)), tracer.D_SCALE)}
+                "moves": [{"fleets": _fleets_of_report(r), "m": tracer.q(float(r.get("distance_km", 0.0)), tracer.D_SCALE),
+                           "state": str(r.get("vehicle_state"))}
                           for r in reps if r["type"] == "vehicle_move_event"],
                 "charges": [{"fleets": _fleets_of_report(r), "charger": str(r.get("charger_id"))} for r in reps if r["type"] == "vehicle_charge_event"],
                 "cancels": [str(r.get("request_id")) for r in reps if r["type"] == "cancel_request_event"]})
@@ -281,6 +282,41 @@ def stats_lines(item_id: str, handler, errors: List[str], out_dir: Path, lines: 
     return out
 
 
+def final_state(lines: List[Dict[str, Any]]) -> Dict[str, Any]:
+    """the end state as the summary sees it (charge level 1e-4, money 1e-4, energy 1e-3)"""
+    veh: Dict[str, Dict[str, Any]] = {}
+    st: Dict[str, Dict[str, Any]] = {}
+    caps: Dict[str, int] = {}
+    for e in lines:
+        if e["ev"] == "init":
+            caps = {i: c for i, c in e.get("caps", [])}
+        d = e.get("d") or {}
+        for i, r in d.get("veh", []):
+            veh[i] = r
+        for i in d.get("rmveh", []):
+            veh.pop(i, None)
+        for i, r in d.get("st", []):
+            st[i] = r
+        for i in d.get("rmst", []):
+            st.pop(i, None)
+    return {"veh": [{"id": i, "soc": int(round(r["en"] * 10000 / caps[i])) if caps.get(i) else 0, "bal": r["bal"], "spent": r["spent"],
+                     "kind": r["kind"]} for i, r in sorted(veh.items())],
+            "st": [{"id": i, "bal": r["bal"], "disp_e": dict(r["disp"]).get("electric", 0), "disp_g": dict(r["disp"]).get("gasoline", 0)}
+                   for i, r in sorted(st.items())]}
+
+
+def summary_ints(summary: Dict[str, Any]) -> Dict[str, Any]:
+    """the summary of the real StatsHandler in the integers of the spec"""
+    f = lambda k: float(summary.get(k, 0.0) or 0.0)      # noqa: E731
+    return {"nveh": int(summary.get("final_vehicle_count", -1)), "soc": int(round(f("mean_final_soc") * 10000)),
+            "fleet_rev": tracer.q(f("fleet_revenue_dollars"), tracer.M_SCALE), "station_rev": tracer.q(f("station_revenue_dollars"), tracer.M_SCALE),
+            "kwh_exp": tracer.q(f("total_kwh_expended"), tracer.E_SCALE), "gge_exp": tracer.q(f("total_gge_expended"), tracer.E_SCALE),
+            "kwh_disp": tracer.q(f("total_kwh_dispensed"), tracer.E_SCALE), "gge_disp": tracer.q(f("total_gge_dispensed"), tracer.E_SCALE),
+            "served": int(round(f("requests_served_percent") * 10000)),
+            "vstate": [[str(k), int(round(float(v.get("observed_percent", 0.0)) * 10000)), tracer.q(float(v.get("vkt", 0.0)), tracer.D_SCALE)]
+                       for k, v in sorted((summary.get("vehicle_state") or {}).items())]}
+
+
 def run_events(item: Dict[str, Any], work: Path, out_path: Path) -> Dict[str, Any]:
     """one run through the real file-writing handlers; writes the HiveEvents log"""
     from nrel.hive.app import hive_cosim
@@ -334,9 +370,10 @@ def run_events(item: Dict[str, Any], work: Path, out_path: Path) -> Dict[str, An
             f.write(json.dumps({"k": "step", "id": item["id"], "i": i, "cancel": cancel, "dt": dt, "log": log, "state": st}, separators=(",", ":")) + "\n")
         for ln in stats_lines(item["id"], stats_handler, stats_errors, out_dir, tr.lines, sorted(rp.e.chargers.keys())):
             f.write(json.dumps(ln, separators=(",", ":")) + "\n")
-        f.write(json.dumps({"k": "final", "id": item["id"], **final,
+        f.write(json.dumps({"k": "final", "id": item["id"], **final, "fin": final_state(tr.lines),
                             "summary": {"requests": counts["requests"], "cancelled": counts["cancelled"],
-                                        "vkt": tracer.q(float(summary.get("total_vkt", 0.0)), tracer.D_SCALE)}},
+                                        "vkt": tracer.q(float(summary.get("total_vkt", 0.0)), tracer.D_SCALE),
+                                        **summary_ints(summary)}},
                            separators=(",", ":")) + "\n")
     import shutil
 
